@@ -32,7 +32,9 @@ GATES = [
     ("MERGE_DONE", "C08", "merge completes the sink only when every member has completed"),
     ("COMBINE_TUPLE", "C10", "every tuple holds the latest value of every member, and none is emitted before all have one"),
     ("COMBINE_DONE", "C10", "combine completes the sink only after every member has ended"),
-    ("OP3", "C12", "operator-specific clause 3"),
+    ("SHARE_TB", "C12", "a sink is greeted with its own talkback"),
+    ("SHARE_ONE_UP", "C12", "the upstream is subscribed only when exactly one sink is attached and no upstream subscription is alive"),
+    ("SHARE_LAST", "C12", "the upstream is disposed only when the last attached sink has detached"),
     ("TICK_ORDER", "C16", "the k-th number delivered is k: 0, 1, 2, ... one per elapsed period"),
 ]
 INDEX = {n: i for i, (n, _, _) in enumerate(GATES)}
